@@ -53,7 +53,7 @@ def tag(v):
     return {'s': 'UNSUPPORTED:' + type(v).__name__}
 
 
-def via_dump(ev, strings, threads):
+def via_dump(ev, strings, threads, unaligned=False):
     import io
     import os
     sys.path.insert(0, os.path.join(os.path.dirname(os.path.abspath(__file__)), '..', '..'))
@@ -62,7 +62,8 @@ def via_dump(ev, strings, threads):
     n = max(strings) + 1 if strings else 0
     index = {'StringIndex': {strings.get(i, 'unused%d' % i): i for i in range(n)}}
     blocks = [(D.TAG_LOG_STRINGS, D.plist(index)), (D.TAG_LOG_EVENTS, D.plist({'Events': [ev]}))]
-    data = D.build_v3([(t, p, nm.encode()) for t, p, nm in threads], [[]], blocks)
+    # unaligned: the last section is not padded to 8 bytes (the file simply ends)
+    data = D.build_v3([(t, p, nm.encode()) for t, p, nm in threads], [[]], blocks, last_block_unaligned=unaligned)
     logs = list(PyKdebugParser().os_log_events(io.BytesIO(data)))
     assert len(logs) == 1, len(logs)
     return logs[0]
@@ -78,7 +79,7 @@ def main():
             if case.get('via_dump'):
                 # the same record inside a version-3 dump whose thread map declares the record's thread, read back through
                 # the public API
-                o = via_dump(ev, strings, case['threads'])
+                o = via_dump(ev, strings, case['threads'], bool(case.get('unaligned')))
             else:
                 o = OsLogEvent.from_raw_log_event(ev, strings)
             out.append({'ok': [[f.name, tag(getattr(o, f.name))] for f in dataclasses.fields(o)], 'str': str(o)})
